@@ -6,7 +6,7 @@ C25 — outgoing cookies are emitted exactly as set: the property theorems.
 `outputString` is `Morsel.OutputString`, and `Spec.readSetCookie` is the client-side reading of a
 `Set-Cookie` value.  All statements are universally quantified over code-point strings.
 -/
-import TornadoModel.C25.Lemmas
+import TornadoModel.C25.Clean
 namespace TornadoModel.C25
 open Spec
 
@@ -100,14 +100,87 @@ keyword arguments) excludes -/
 example : readSetCookie (outputString { key := [97], value := [98], coded := [98], domain := [120, 59, 32, 83] })
     = some ([97, 61, 98], [(dDomain, some [120]), ([83], none)]) := by rfl
 
-/-- Stretch (not proved; tie-only): every morsel an accepted `set_cookie` call builds satisfies
-`MorselClean`, given that the `expires` text produced by `format_timestamp` has no `;`.  The
-ingredients are `quote_no59`, the attribute checks of `setCookie` (`hasBadAttrChar`, `kwBad`) and the
-fact that `str(max_age)` is digits and `-`; the correspondence stream checks the conclusion on every
-emitted cookie (the oracle re-reads each `Set-Cookie` with `Spec.readSetCookie`). -/
-def accepted_morsel_clean_goal : Prop :=
+/-- **Accepted calls build clean Morsels**: every Morsel an accepted `set_cookie` call builds satisfies
+`MorselClean`, given that the `expires` text produced by `format_timestamp` (external) has no `;`.
+Ingredients: `_quote` escapes `;` (`quote_no59`), the attribute checks of `setCookie` (`hasBadAttrChar` on
+name/domain/path/samesite, `kwBad` on every deprecated keyword value except `comment`, which is quoted),
+`str(max_age)` is digits and `-`, and an induction over the keyword loop (`Clean.lean`). -/
+theorem accepted_morsel_clean :
   ∀ (a : CookieArgs) (m : Morsel), (∀ e, a.expires = some e → ∀ x ∈ e, x ≠ 59) →
-    setCookie [] a = ([m], none) → MorselClean m
+    setCookie [] a = ([m], none) → MorselClean m := by
+  intro a m hexp h
+  exact textsAvoid_clean (accepted_avoid (· == 59) badKw_59 a m
+    (fun e he x hx => by simpa using hexp e he x hx) h)
+
+/-- the same at full strength: no text the Morsel emits verbatim (name, coded value, Domain, expires, Max-Age,
+Path, SameSite, Version) contains `;`, a C0 control character or DEL — provided the externally formatted
+`expires` text does not -/
+theorem accepted_morsel_strict (a : CookieArgs) (m : Morsel)
+    (hexp : ∀ e, a.expires = some e → ∀ x ∈ e, badKwChar x = false)
+    (h : setCookie [] a = ([m], none)) : MorselStrict m :=
+  accepted_avoid badKwChar (fun _ hc => hc) a m hexp h
+
+/-- **Accepted calls emit exactly what was requested** (`attrs_exact` with its premise discharged): for every call
+`set_cookie` accepts, a client that splits the emitted `Set-Cookie` value at every `;` reads the `name=coded_value`
+pair followed by exactly the attributes of the Morsel the call built — same names, texts, order, nothing extra. -/
+theorem accepted_attrs_exact (a : CookieArgs) (m : Morsel)
+    (hexp : ∀ e, a.expires = some e → ∀ x ∈ e, x ≠ 59) (h : setCookie [] a = ([m], none)) :
+    readSetCookie (outputString m) = some (kv m.key m.coded, requested m) :=
+  attrs_exact m (accepted_morsel_clean a m hexp h)
+
+/-- … whatever the jar held before: the call leaves the jar's other names alone and appends one Morsel, and that
+Morsel is read back as exactly its requested attributes -/
+theorem accepted_attrs_exact_jar (j j' : Jar) (a : CookieArgs)
+    (hexp : ∀ e, a.expires = some e → ∀ x ∈ e, x ≠ 59) (h : setCookie j a = (j', none)) :
+    ∃ m, j' = jarErase j m.key ++ [m] ∧ MorselClean m ∧
+      readSetCookie (outputString m) = some (kv m.key m.coded, requested m) := by
+  have hs := setCookie_eq j a
+  rw [h] at hs
+  have h2 : (setCookie [] a).2 = none := by
+    split at hs
+    · rename_i m e heq
+      injection hs with _ h2
+      rw [heq, ← h2]
+    · rename_i l e _ heq
+      injection hs with _ h2
+      rw [heq, ← h2]
+  obtain ⟨m, hm⟩ := setCookie_nil_ok a h2
+  rw [hm] at hs
+  simp only at hs
+  injection hs with h1 _
+  exact ⟨m, h1, accepted_morsel_clean a m hexp hm, accepted_attrs_exact a m hexp hm⟩
+
+/-- without deprecated keywords the requested attributes are the call's own arguments: the reader finds `Domain`,
+`expires`, `HttpOnly`, `Max-Age` (= `str(max_age)`, omitted for 0), `Path`, `SameSite`, `Secure` — each iff given
+(non-empty / true), with the given text, in that order -/
+theorem accepted_attrs_args (a : CookieArgs) (m : Morsel) (hkw : a.kwargs = [])
+    (hexp : ∀ e, a.expires = some e → ∀ x ∈ e, x ≠ 59) (h : setCookie [] a = ([m], none)) :
+    ∃ name value, nativeStr a.name = .ok name ∧ nativeStr a.value = .ok value ∧
+      readSetCookie (outputString m) = some (kv name (quote value),
+        reqAttr dDomain (optStr a.domain) ++ reqAttr dExpires (optStr a.expires) ++ reqFlag dHttpOnly a.httponly
+          ++ reqAttr dMaxAge (match a.maxAge with | some i => if i = 0 then [] else decOfInt i | none => [])
+          ++ reqAttr dPath (optStr a.path) ++ reqAttr dSameSite (optStr a.samesite) ++ reqFlag dSecure a.secure) := by
+  obtain ⟨name, value, hn, hv, _, _, _, _, _, _, _, _, hm⟩ := setCookie_accept_inv a m h
+  rw [hkw] at hm
+  simp only [applyKwargs, Prod.mk.injEq, and_true] at hm
+  refine ⟨name, value, hn, hv, ?_⟩
+  rw [accepted_attrs_exact a m hexp h, ← hm]
+  simp only [requested, baseMorsel, reqAttr, List.isEmpty_nil, if_true, List.nil_append, List.append_nil]
+  rfl
+
+/-- non-vacuity: an accepted call with every kind of argument, a deprecated keyword (`Version`) and a comment that
+holds a `;` (quoted by the library) -/
+example : setCookie [] { name := .str [97], value := .str [98, 59], domain := some [120], maxAge := some 60,
+                         secure := true, samesite := some [76, 97, 120], expires := some [84, 104, 117],
+                         kwargs := [([86, 101, 114, 115, 105, 111, 110], .str [49]),
+                                    ([99, 111, 109, 109, 101, 110, 116], .str [99, 59, 100])] }
+    = ([{ key := [97], value := [98, 59], coded := [34, 98, 92, 48, 55, 51, 34], domain := [120], maxAge := [54, 48],
+          path := [47], secure := true, samesite := [76, 97, 120], expires := [84, 104, 117], version := [49],
+          comment := [99, 59, 100] }], none) := by rfl
+/-- … and a call the model refuses (a `;` in a deprecated keyword value — the fixed defect): not accepted -/
+example : (setCookie [] { name := .str [97], value := .str [98],
+                          kwargs := [([68, 111, 109, 97, 105, 110], .str [120, 59, 32, 83])] }).2
+    = some .cookieError := by rfl
 
 /-- **Last setting wins**: after `set_cookie` returns, the jar is the old jar without any entry of that
 name, followed by the one morsel this call would have produced on an empty jar — so an earlier
